@@ -1,7 +1,7 @@
 (* Single entry point val -> val for every modelled function; used by the extracted
    runner and by the generated in-Coq case files. *)
 From Coq Require Import ZArith List Bool.
-From Gabi Require Import Val ModArith Bytes Der Sha256 HashTool.
+From Gabi Require Import Val ModArith Bytes Der Sha256 HashTool GoSem ParamsDef ZkProof Keys RangeProof NonRev Core.
 Import ListNotations.
 Open Scope Z_scope.
 
@@ -57,6 +57,52 @@ Definition d_hash_commit_bytes (v : val) : val := ret (
   | _ => None
   end).
 
+Definition as_nat (v : val) : option nat := match v with VZ z => Some (Z.to_nat z) | _ => None end.
+
+Definition d_proofD_verify (v : val) : val := ret (
+  match v with
+  | VL [pk; p; ctx; nonce; sg; c1; c2] =>
+    do pk <- as_pk pk; do p <- as_proofD p; do ctx <- as_Z ctx; do nonce <- as_Z nonce;
+    do sg <- as_bool sg; do c1 <- as_nat c1; do c2 <- as_nat c2;
+    Some (of_obool (proofD_verify pk p ctx nonce sg c1 c2))
+  | _ => None
+  end).
+
+Definition d_proofD_contrib (v : val) : val := ret (
+  match v with
+  | VL [pk; p; c1] =>
+    do pk <- as_pk pk; do p <- as_proofD p; do c1 <- as_nat c1;
+    Some (of_outcome (fun lp => of_LZ (fst lp)) (proofD_contrib pk p c1))
+  | _ => None
+  end).
+
+Definition d_prooflist_verify (v : val) : val := ret (
+  match v with
+  | VL [pks; ctx; nonce; sg; labels; pl; c1; c2] =>
+    do pks <- (match pks with VL l => map_opt as_pk l | _ => None end);
+    do ctx <- as_Z ctx; do nonce <- as_Z nonce; do sg <- as_bool sg; do labels <- as_LZ labels;
+    do pl <- (match pl with VL l => map_opt as_proof l | _ => None end);
+    do c1 <- as_nat c1; do c2 <- as_nat c2;
+    Some (of_obool (prooflist_verify pks ctx nonce sg labels pl c1 c2))
+  | _ => None
+  end).
+
+Definition d_proofU_verify (v : val) : val := ret (
+  match v with
+  | VL [pk; p; ctx; nonce] =>
+    do pk <- as_pk pk; do p <- as_proofU p; do ctx <- as_Z ctx; do nonce <- as_Z nonce;
+    Some (of_obool (proofU_verify pk p ctx nonce))
+  | _ => None
+  end).
+
+Definition d_proofS_verify (v : val) : val := ret (
+  match v with
+  | VL [pk; p; sg; ctx; nonce] =>
+    do pk <- as_pk pk; do p <- as_proofS p; do sg <- as_sig sg; do ctx <- as_Z ctx; do nonce <- as_Z nonce;
+    Some (of_obool (proofS_verify pk p sg ctx nonce))
+  | _ => None
+  end).
+
 Definition dispatch (fn : Z) (v : val) : val :=
   match fn with
   | 1501 => d_hash_commit v
@@ -65,6 +111,11 @@ Definition dispatch (fn : Z) (v : val) : val :=
   | 1504 => d_create_challenge v
   | 1505 => d_attr_exp v
   | 1506 => d_hash_commit_bytes v
+  | 101 => d_proofD_verify v
+  | 102 => d_proofD_contrib v
+  | 103 => d_prooflist_verify v
+  | 104 => d_proofU_verify v
+  | 105 => d_proofS_verify v
   | _ => bad_input
   end.
 
